@@ -304,6 +304,7 @@ func generate(fns []fnInfo, p poolT, cfg hlib.Config, rnd *hlib.Rand) []pcase {
 			cases = append(cases, pcase{fn: -1, toks: w})
 		}
 	}
+	cases = append(cases, directedCases(byKey)...)
 	P := len(p.vals)
 	// pool subsets for the syntax ops: binaries as input, numbers as arguments
 	var bins, nums []int
